@@ -145,6 +145,14 @@ def check_case(ctx, case):
             ctx.fail("with a module class that defines equality by record id, vector down={} up={} and modules {} end with {} "
                      "instead of {}".format(vdown, vup, mods, kind_e, exp[0]), case)
         ctx.note("value-equality-module-class")
+        # … and one that has a length, a truth value and an iterator of its own (a wrapper counting its annotations)
+        Modd = type("CountingModule", (M,), {"__len__": lambda a_: 0, "__iter__": lambda a_: iter(())})
+        reply_o, _, _ = impl.run_asm(("ASM", 1, 1, v, [e_._replace(cls=Modd) for e_ in ents]))
+        fo = reply_o.split("\t")
+        kind_o = "ok" if fo[0] == "ok" else fo[1].split(":")[0]
+        if kind_o != exp[0]:
+            ctx.fail("with a module class that defines __len__ (0) and __iter__, vector down={} up={} and modules {} end with {} "
+                     "instead of {}".format(vdown, vup, mods, kind_o, exp[0]), case)
     ctx.note("outcome:" + exp[0])
     ctx.case(case, nontrivial=True, key=[case["vector"], sorted(mods), exp[0],
                                              (exp[1] if isinstance(exp[1], int) else len(exp[1])) if exp[0] == "ok" else 0, same])
@@ -270,6 +278,8 @@ def run(ctx):
         ctx.guard(check_case, {"vector": list(vec), "mods": mods, "same_id": True, "share": True,
                                "vcase": rng.choice([None, "half"])})
         ctx.guard(check_case, {"vector": list(vec), "mods": mods, "same_id": True, "eqclass": True})
+        ok_mods = [m_ for m_ in mods if m_[2] <= k]           # the complete chain alone, in the same class shapes
+        ctx.guard(check_case, {"vector": list(vec), "mods": ok_mods, "eqclass": True})
     # reverse-complementary / equal start overhangs spelt in different cases, in every argument order
     for _ in range(ctx.budget(150, 3000)):
         vec = rng.choice([v for v in VECTORS if v[0] != v[1]])
